@@ -80,6 +80,44 @@ theorem C_rectY (y0 dy : K) {a b g : Nat} (ha : a ≤ 1) (hb : b ≤ 1) (hg : g 
   rcases bin_cases ha with rfl | rfl <;> rcases bin_cases hb with rfl | rfl <;>
     rcases bin_cases hg with rfl | rfl <;> simp [C, rectY] at h ⊢ <;> ring
 
+/-- Coordinate array of a parallelepiped: corner `n` = `o + (n%2)·a + (n/2%2)·b + (n/4)·c`. -/
+def paraCoord (o a b c : K) : Nat → K := fun n =>
+  o + (if n % 2 = 1 then a else 0) + (if n / 2 % 2 = 1 then b else 0) + (if n / 4 = 1 then c else 0)
+
+theorem C_paraCoord (o a b c : K) {i1 i2 i3 : Nat} (h1 : i1 ≤ 1) (h2 : i2 ≤ 1) (h3 : i3 ≤ 1)
+    (h : (i1, i2, i3) ≠ (0, 0, 0)) :
+    C (paraCoord o a b c) i1 i2 i3 =
+      if i1 = 1 ∧ i2 = 0 ∧ i3 = 0 then a else if i1 = 0 ∧ i2 = 1 ∧ i3 = 0 then b
+      else if i1 = 0 ∧ i2 = 0 ∧ i3 = 1 then c else 0 := by
+  rcases bin_cases h1 with rfl | rfl <;> rcases bin_cases h2 with rfl | rfl <;>
+    rcases bin_cases h3 with rfl | rfl <;> simp [C, paraCoord] at h ⊢ <;> ring
+
+set_option maxHeartbeats 4000000 in
+set_option maxRecDepth 100000 in
+/-- Parallelepiped at coefficient level: all six permutations contribute, with alternating
+sign — the determinant. -/
+theorem signedVolOf_para (ax bx cx ay «by» cy az bz cz : K) :
+    signedVolOf
+      (fun i1 i2 i3 => if i1 = 1 ∧ i2 = 0 ∧ i3 = 0 then ax else if i1 = 0 ∧ i2 = 1 ∧ i3 = 0 then bx
+        else if i1 = 0 ∧ i2 = 0 ∧ i3 = 1 then cx else 0)
+      (fun i1 i2 i3 => if i1 = 1 ∧ i2 = 0 ∧ i3 = 0 then ay else if i1 = 0 ∧ i2 = 1 ∧ i3 = 0 then «by»
+        else if i1 = 0 ∧ i2 = 0 ∧ i3 = 1 then cy else 0)
+      (fun i1 i2 i3 => if i1 = 1 ∧ i2 = 0 ∧ i3 = 0 then az else if i1 = 0 ∧ i2 = 1 ∧ i3 = 0 then bz
+        else if i1 = 0 ∧ i2 = 0 ∧ i3 = 1 then cz else 0)
+      = ax * («by» * cz - bz * cy) - bx * (ay * cz - az * cy) + cx * (ay * bz - az * «by») := by
+  simp [signedVolOf, innerLoop, permutation, pqrArray, cprodOf, denom]
+  ring
+
+/-- Sheared box (parallelepiped spanned by `a, b, c` at `o`): `signedVol = det [a b c]`. -/
+theorem signedVol_parallelepiped (ox ax bx cx oy ay «by» cy oz az bz cz : K) :
+    signedVol (paraCoord ox ax bx cx) (paraCoord oy ay «by» cy) (paraCoord oz az bz cz)
+      = ax * («by» * cz - bz * cy) - bx * (ay * cz - az * cy) + cx * (ay * bz - az * «by») := by
+  unfold signedVol
+  rw [← signedVolOf_para]
+  exact signedVolOf_congr (fun _ _ _ h1 h2 h3 h => C_paraCoord ox ax bx cx h1 h2 h3 h)
+    (fun _ _ _ h1 h2 h3 h => C_paraCoord oy ay «by» cy h1 h2 h3 h)
+    (fun _ _ _ h1 h2 h3 h => C_paraCoord oz az bz cz h1 h2 h3 h)
+
 variable [CharZero K]
 
 /-- Vertical pillars over a rectangle, arbitrary (also non-planar) top and bottom corner
